@@ -11,7 +11,7 @@ def main():
            ('OP_MOD', 5, 'remainder of truncating'), ('OP_EQ', 6, None), ('OP_NE', 7, None), ('OP_LT', 8, None), ('OP_LE', 9, None), ('OP_GT', 10, None), ('OP_GE', 11, None)]
     jobs = []
     for op, r, smtdesc in ops:
-        for kinds in (('INT', 'INT'), ('ENUM', 'INT')) if (op in ('OP_ADD', 'OP_SUB') and tier == 'thorough') else (('INT', 'INT'),):
+        for kinds in (('INT', 'INT'),):
             j = vmjobs.vm_job('c02', op, kinds, post=10, extra={'REFOP': r}, group='vm_operator_kernels', timeout=300)
             if smtdesc:
                 # everything except the arithmetic conjunct through SAT is covered by C13's instance of the same opcode;
